@@ -1,6 +1,7 @@
 import Driver.Proto
 import SsqlVerif.Model.Session
 import SsqlVerif.Spec.Session
+import SsqlVerif.Spec.SessionRef
 set_option autoImplicit false
 open Proto
 
@@ -78,6 +79,19 @@ def evsOfObs (obs : List (List String)) (gaps : List Gap) : List SessSpec.Ev := 
   let arrs := (List.range n).flatMap (fun k => (gaps.filter (·.k == k)).map (fun g => SessSpec.Ev.arr g.key g.id g.ts))
   return firsts ++ arrs ++ lates
 
+/-- in-order histories (no idle ticks): every session the implementation delivered must be one of the
+reference sessionization's — the function `Session.reference` of theorem `C10.inorder_outcome_is_reference` -/
+def refClause (timeout : Int) (mops : List Session.Op) (evs : List SessSpec.Ev) : Option String :=
+  if inOrderB (-1000000000000000000000000000000) mops then
+    let ref := (reference timeout mops).map fun x => (x.key, x.start, x.stop, x.rows.map (·.id))
+    let firsts := evs.filterMap fun e => match e with
+      | .emit false k a b ids => some (k, a, b, ids)
+      | _ => none
+    match firsts.find? (fun f => !ref.contains f) with
+    | some _ => some "in-order-session-differs-from-reference"
+    | none => none
+  else none
+
 /-- SQL-level stage for session windows (in-order input): oracle only, plus the aggregate columns. -/
 def runSql (c : Case) : CaseOut := Id.run do
   let ms : Int := 1000000
@@ -85,11 +99,15 @@ def runSql (c : Case) : CaseOut := Id.run do
   let mut evs : List SessSpec.Ev := []
   let mut emits : List SessSpec.Ev := []
   let mut bad : Option String := none
+  let mut mops : List Session.Op := []
   for (op, implObs) in c.ops do
     match op with
     | ["row", id, ts, k] =>
       let t := if ts == "none" then none else (parseInt ts).map (· * ms)
       evs := evs ++ [SessSpec.Ev.arr ((unhex k).getD []) ((parseNat id).getD 0) t]
+      mops := mops ++ [match t with
+        | some t => Session.Op.add ((unhex k).getD []) { id := (parseNat id).getD 0, ts := t } 0
+        | none => Session.Op.addNoTs]
     | ["flush"] =>
       for l in implObs do
         match l with
@@ -106,7 +124,7 @@ def runSql (c : Case) : CaseOut := Id.run do
   let spec := match bad with
     | some b => "fail:" ++ b
     | none => match SessSpec.holds scfg (evs ++ emits) true with
-      | none => "ok"
+      | none => (match refClause timeout mops emits with | none => "ok" | some e => "fail:" ++ e)
       | some e => "fail:" ++ e
   return { obs := c.ops.map (fun p => p.2), spec := spec, tags := ["sql-level-oracle-only"] }
 
@@ -121,6 +139,7 @@ def run (c : Case) : CaseOut := Id.run do
   let mut tags : List String := []
   let mut flushed := false
   let mut cls := "none"
+  let mut mops : List Session.Op := []
   for (op, implObs) in c.ops do
     match op with
     | "add" :: id :: ts :: rest =>
@@ -141,12 +160,17 @@ def run (c : Case) : CaseOut := Id.run do
       w := w'
       obs := obs ++ [es.map emLine]
       evs := evs ++ [SessSpec.Ev.arr key id ts] ++ evsOfObs implObs []
+      mops := mops ++ [match ts with | some t => Session.Op.add key { id := id, ts := t } now | none => Session.Op.addNoTs]
       flushed := false
     | "deliver" :: gs =>
       let gaps := gs.filterMap parseGap
       match deliver w gaps now with
       | none => obs := obs ++ [[["idle"]]]
       | some (w', es) =>
+        -- the Adds of the unlock gap that really ran, in the order they ran (after the expiry pass)
+        let n := (match Wm.pop w.wm with | some (x, wm') => (stepExpire { w with wm := wm' } x).2.length | none => 0)
+        let ran := (List.range n).flatMap (fun k => gaps.filter (·.k == k))
+        mops := mops ++ ran.map (fun g => match g.ts with | some t => Session.Op.add g.key { id := g.id, ts := t } now | none => Session.Op.addNoTs)
         w := w'
         obs := obs ++ [es.map emLine]
       evs := evs ++ evsOfObs implObs gaps
@@ -162,8 +186,9 @@ def run (c : Case) : CaseOut := Id.run do
     | _ => obs := obs ++ [[["bad-op"]]]
   let scfg : SessSpec.Cfg := { timeout := timeout, ooo := ooo, lateness := late, now := now }
   let spec := match SessSpec.holds scfg evs flushed with
-    | none => "ok"
+    | none => (if ooo ≥ 0 then (match refClause timeout mops evs with | none => "ok" | some e => "fail:" ++ e) else "ok")
     | some e => "fail:" ++ e
+  if inOrderB (-1000000000000000000000000000000) mops && ooo ≥ 0 then tags := "in-order-history-vs-reference" :: tags
   return { obs := obs, spec := spec, tags := tags, cls := cls }
 
 end DrvSess
